@@ -158,7 +158,17 @@ def judge(ns, ctx, case):
     else:
         sd_before = case['set'].get('sd')
     try:
-        r = T.conform14(x, yy, z, ep, t, V) if V is not None else T.conform14(x, yy, z, ep, t)
+        Vc = V
+        if V is not None and case.get('vrep'):
+            Vc = core.rep_array(case['vrep'], V)
+            ctx.count('covariance_delivered_as:' + case['vrep'])
+        if case.get('rep'):
+            ctx.count('argument_representation:' + case['rep'])
+        if case.get('shape'):
+            ctx.count('call_shape:' + case['shape'])
+        r = core.shaped_call(T.conform14, ['x', 'y', 'z', 'to_epoch', 'trans', 'vcv'],
+                             list(core.rep_values(case.get('rep'), x, yy, z)) + [ep, t, Vc], case.get('shape'),
+                             omit=('vcv',) if V is None else ())
     except Exception as e:
         ctx.violation('conform14:exception', case, {'exception': repr(e)})
         return
@@ -280,7 +290,8 @@ def run_shard(spec, ctx):
             kind = c06.VCV_KINDS[i % len(c06.VCV_KINDS)] if has_sd else 'none'
             V = c06.rand_vcv(rnd, kind)
             case = {'set': name, 'epoch': str(ep), 'eclass': cls, 'xyz': c06.rand_point(rnd, 1e7),
-                    'vcv': None if V is None else V.tolist()}
+                    'vcv': None if V is None else V.tolist(), 'vkind': kind}
+            c06.deliver_choice(rnd, case)
             if k < 2:
                 ctx.sample(case)
             k += 1
@@ -290,9 +301,11 @@ def run_shard(spec, ctx):
     for i in range(spec['n'] // 3):
         t = rand_dated_set(ns, rnd, rnd.random() < 0.5)
         ep, cls = rand_epoch(rnd, t.ref_epoch)
-        V = c06.rand_vcv(rnd, rnd.choice(c06.VCV_KINDS))
+        kind = rnd.choice(c06.VCV_KINDS)
+        V = c06.rand_vcv(rnd, kind)
         case = {'set': spec_of(t), 'epoch': str(ep), 'eclass': cls, 'xyz': c06.rand_point(rnd, 1e7),
-                'vcv': None if V is None else V.tolist()}
+                'vcv': None if V is None else V.tolist(), 'vkind': kind}
+        c06.deliver_choice(rnd, case)
         if rnd.random() < 0.03:
             case['before'] = [rnd.randrange(1000) for _ in range(rnd.choice([1, 2]))]
         judge(ns, ctx, case)
